@@ -332,14 +332,21 @@ func (s *state) evalPrint(node *ast.PrintNode) {
 	var escapeHtml = s.autoescape != ast.AutoescapeOff
 	var result = s.val
 
-	for _, directiveName := range ObligatoryPrintDirectiveNames {
-		node.Directives = append(node.Directives, &ast.PrintDirectiveNode{
-			Pos:  node.Position(),
-			Name: directiveName,
-		})
+	// The obligatory directives are applied after the node's own directives.
+	// The list is built per print: the node belongs to the shared parse tree.
+	var directives = node.Directives
+	if len(ObligatoryPrintDirectiveNames) > 0 {
+		directives = make([]*ast.PrintDirectiveNode, 0, len(node.Directives)+len(ObligatoryPrintDirectiveNames))
+		directives = append(directives, node.Directives...)
+		for _, directiveName := range ObligatoryPrintDirectiveNames {
+			directives = append(directives, &ast.PrintDirectiveNode{
+				Pos:  node.Position(),
+				Name: directiveName,
+			})
+		}
 	}
 
-	for _, directiveNode := range node.Directives {
+	for _, directiveNode := range directives {
 		var directive, ok = PrintDirectives[directiveNode.Name]
 		if !ok {
 			s.errorf("Print directive %q does not exist", directiveNode.Name)
